@@ -16,7 +16,8 @@ type c18Txn struct {
 	DataOp   int
 	NoopOp   int
 	AllOK    bool
-	Slow     bool // a per-recipient status arrives later than CommandTimeout after the previous reply
+	Slow     bool // a per-recipient status arrives later than CommandTimeout after the previous reply, or the message is produced that slowly
+	SlowBody bool
 }
 
 type c18X struct {
@@ -79,7 +80,16 @@ func genC18(t *Tape, tier string) *Scenario {
 		}
 		cp.Data = append(cp.Data, dp)
 		tx.DataOp = len(cl.Ops)
-		cl.Ops = append(cl.Ops, ClientOp{Kind: opData, Body: []byte(fmt.Sprintf("message %d\r\n", m)), UseCb: cb})
+		dop := ClientOp{Kind: opData, Body: []byte(fmt.Sprintf("message %d\r\n", m)), UseCb: cb}
+		if !tx.Slow && t.Chance(1, 10) {
+			// a slow producer: the rest of the message is written more than CommandTimeout
+			// after the 354 (nothing limits the time a client takes to produce a message)
+			dop.Parts = []int{3, len(dop.Body)}
+			dop.Gap = 6 * time.Minute
+			sc.Srv.ReadTO, sc.Srv.WriteTO = 0, 0
+			tx.Slow, tx.SlowBody = true, true
+		}
+		cl.Ops = append(cl.Ops, dop)
 		tx.NoopOp = len(cl.Ops)
 		cl.Ops = append(cl.Ops, ClientOp{Kind: opNoop})
 		x.Txns = append(x.Txns, tx)
@@ -166,8 +176,11 @@ func classifyC18(sc *Scenario, h *History, st *Stats) string {
 		if !tx.AllOK {
 			st.Probes["recipient_refused_after_DATA"]++
 		}
-		if tx.Slow {
+		if tx.Slow && !tx.SlowBody {
 			st.Faults["per_recipient_reply_later_than_CommandTimeout"]++
+		}
+		if tx.SlowBody {
+			st.Faults["message_produced_slower_than_CommandTimeout"]++
 		}
 		key = append(key, fmt.Sprintf("%d/%v/%v", len(tx.Rcpts), tx.Codes, tx.UseCb))
 	}
@@ -199,7 +212,7 @@ func init() {
 		Real:        []string{"smtp.Client (NewClientLMTP, Mail, Rcpt, LMTPData, Data, dataCloser.Close, Noop, Quit)", "smtp.Server in LMTP mode, handleDataLMTP, statusCollector", "net/textproto"},
 		Stub:        []string{"net.Listener (SimListener)", "net.Conn (SimConn)", "Backend/LMTPSession (SimBackend)", "clock (synctest): a Close that waits for replies that never come costs 12 fake minutes and is detected as such"},
 		Assumptions: []string{"'Close returns once exactly those replies have been read' is judged as: within one fake minute, and the following NOOP gets its own reply"},
-		Required:    []string{"second_or_later_transaction", "recipient_refused_after_DATA", "recipient_refused_at_RCPT", "per_recipient_reply_later_than_CommandTimeout"},
+		Required:    []string{"second_or_later_transaction", "recipient_refused_after_DATA", "recipient_refused_at_RCPT", "per_recipient_reply_later_than_CommandTimeout", "message_produced_slower_than_CommandTimeout"},
 		QuickRuns:   120000, ThoroughRuns: 2000000,
 	})
 }
